@@ -307,32 +307,85 @@ def exitcode(F, rep, f):
     last_ok = max(oks, key=lambda x: x[1] or 0) if oks else None
     if not rep.anchor("EXIT", "final Err/Ok returns of run_tests", last_err and last_ok):
         return
-    # last comparison pair (the one deciding the return, not the summary colour)
-    by_name = {}
+    # decide the returns under each truth assignment of the two comparisons (assume-and-propagate over boolean locals:
+    # robust to hoisting the condition into a local, De Morgan rewrites, early returns ...)
+    cmp_of = {}
     for c in gts:
-        by_name.setdefault(c[2], []).append(c)
-    true_dom, false_dom_all = set(), None
-    for nme, cs in by_name.items():
-        c = max(cs, key=lambda x: x[0])
-        fe, te = bool_switch_edges(f, c[1])
-        for (a, b) in te:
-            true_dom |= blocks_dominated_by_edge(f, a, b)
-        fd = set()
-        for (a, b) in fe:
-            fd |= blocks_dominated_by_edge(f, a, b)
-        false_dom_all = fd if false_dom_all is None else (false_dom_all & fd)
-    # Err must not be reachable when both are false; Ok must not be reachable when either is true
-    ok1 = last_ok[0] in (false_dom_all or set())
-    ok2 = last_err[0] not in (false_dom_all or set())
-    reach_err_from_true = last_err[0] in true_dom or any(last_err[0] in f.reachable(b) for b in true_dom)
-    ok = ok1 and ok2 and reach_err_from_true
-    rep.oblige("EXIT", "Err-iff-failed-or-xpassed", ok,
-               sample={"rule": "EXIT", "ok_only_when_both_zero": ok1, "err_not_when_both_zero": ok2,
-                       "err_reached_when_positive": reach_err_from_true})
+        cmp_of[(c[0], c[1])] = c[2]          # (block, dest local) -> counter name
+
+    def reachable_under(assign):
+        """blocks reachable from the entry when `failed > 0` / `xpassed > 0` evaluate as in `assign`"""
+        start_env = ()
+        seen = set()
+        todo = [(0, start_env)]
+        out = set()
+        while todo:
+            bi, env = todo.pop()
+            if (bi, env) in seen:
+                continue
+            seen.add((bi, env))
+            out.add(bi)
+            e = dict(env)
+            for st in f.stmts(bi):
+                if st["s"] != "assign" or st["d"]["p"]:
+                    continue
+                dl = st["d"]["l"]
+                rv = st["rv"]
+                val = None
+                if (bi, dl) in cmp_of:
+                    val = assign[cmp_of[(bi, dl)]]
+                elif rv["r"] == "use":
+                    if rv["o"].get("c") in ("true", "false"):
+                        val = rv["o"]["c"] == "true"
+                    else:
+                        pl = op_place(rv["o"])
+                        if pl is not None and not pl["p"]:
+                            val = e.get(pl["l"])
+                elif rv["r"] == "un" and rv["op"] == "Not":
+                    pl = op_place(rv["o"])
+                    v = e.get(pl["l"]) if pl is not None and not pl["p"] else None
+                    val = (not v) if v is not None else None
+                elif rv["r"] == "bin" and rv["op"] in ("BitOr", "BitAnd"):
+                    pa, pb = op_place(rv["a"]), op_place(rv["b"])
+                    va = e.get(pa["l"]) if pa is not None and not pa["p"] else None
+                    vb = e.get(pb["l"]) if pb is not None and not pb["p"] else None
+                    if rv["op"] == "BitOr":
+                        val = True if (va or vb) else (False if (va is False and vb is False) else None)
+                    else:
+                        val = False if (va is False or vb is False) else (True if (va and vb) else None)
+                if val is None:
+                    e.pop(dl, None)
+                else:
+                    e[dl] = val
+            t = f.term(bi)
+            succ = f.succs()[bi]
+            if t["t"] == "switch" and t.get("ty") == "bool":
+                pl = op_place(t["on"])
+                v = e.get(pl["l"]) if pl is not None and not pl["p"] else None
+                if v is not None:
+                    succ = [t["otherwise"]] if v else [x for val2, x in t["targets"] if val2 == "0"]
+            elif t["t"] in ("call", "tailcall") and not t["d"]["p"]:
+                e.pop(t["d"]["l"], None)
+            env2 = tuple(sorted(e.items()))
+            for s2 in succ:
+                todo.append((s2, env2))
+        return out
+
+    verdicts = {}
+    ok = True
+    for fa in (False, True):
+        for xp in (False, True):
+            r = reachable_under({"failed": fa, "xpassed": xp})
+            err_r, ok_r = last_err[0] in r, last_ok[0] in r
+            verdicts["failed>0=%s,xpassed>0=%s" % (fa, xp)] = "Err" if err_r and not ok_r else \
+                "Ok" if ok_r and not err_r else "both" if err_r else "neither"
+            want = "Err" if (fa or xp) else "Ok"
+            ok = ok and verdicts["failed>0=%s,xpassed>0=%s" % (fa, xp)] == want
+    rep.oblige("EXIT", "Err-iff-failed-or-xpassed", ok, sample={"rule": "EXIT", "final_return_per_case": verdicts})
     if not ok:
         rep.add(Finding("EXIT", "EXIT|run_tests|status",
-                        "the final Ok(SUCCESS)/Err(FAILURE) returns are not gated exactly by `failed > 0 || "
-                        "xpassed > 0`", file=f.file, line=last_err[1], fn=f.path))
+                        "the final Ok(SUCCESS)/Err(FAILURE) returns are not decided exactly by `failed > 0 || "
+                        "xpassed > 0`: %s" % verdicts, file=f.file, line=last_err[1], fn=f.path))
 
 
 def filt(F, rep, f):
